@@ -85,7 +85,9 @@ fn main() {
     };
     if args[2] == "--replay" {
         limit_memory(8);
-        let code = replay_file(prop, root, &args[3]);
+        // same stack as the worker threads of a run (very deep values must not overflow here)
+        let path = args[3].clone();
+        let code = std::thread::Builder::new().stack_size(512 << 20).spawn(move || replay_file(prop, root, &path)).unwrap().join().unwrap_or(2);
         std::process::exit(code);
     }
     let tier = match args[2].as_str() {
